@@ -9,12 +9,13 @@ import (
 	"regexp"
 	"sort"
 	"strconv"
+	"strings"
 )
 
 func ruleText(thorough bool) string {
-	reduced := "byte substitutions and the remaining truncations run Text, ToMarkdown, PageCount (PDF; Chunks is a prefix of ToMarkdown there) or Text (other formats: every entry re-parses the whole container first) + the matching raw parsers; doubles: all pairs of structural faults (classes 2-6) within the same PDF object / xref section / ZIP record / XML tag, run through Text, PageCount (PDF) or Text (other formats) + the matching raw parsers; "
+	reduced := "byte substitutions and the remaining truncations run Text, ToMarkdown, PageCount (PDF; Chunks is a prefix of ToMarkdown there) or Text (other formats: every entry re-parses the whole container first) + the matching raw parsers; doubles: all pairs of structural faults (classes 2-6) within the same PDF object (inside a content stream or CMap: the same line, i.e. one operator with its operands; inside an xref table: the same entry line) / ZIP record / XML tag, run through Text, PageCount (PDF) or Text (other formats) + the matching raw parsers; "
 	if thorough {
-		reduced = "byte substitutions and the remaining truncations run Text, ToMarkdown, Chunks, PageCount + the matching raw parsers; doubles: all pairs of structural faults (classes 2-6) within the same PDF object / xref section / ZIP record / XML tag, then all remaining pairs of the same layer until the internal time budget is used up, run through Text, Chunks, PageCount + the matching raw parsers; "
+		reduced = "byte substitutions and the remaining truncations run Text, ToMarkdown, Chunks, PageCount + the matching raw parsers; doubles: all pairs of structural faults (classes 2-6) within the same PDF object (inside a content stream or CMap: the same line, i.e. one operator with its operands; inside an xref table: the same entry line) / ZIP record / XML tag, then all remaining pairs of the same layer until the internal time budget is used up, run through Text, Chunks, PageCount + the matching raw parsers; "
 	}
 	return "bases: 9 generated PDFs (classic xref with a marked-content dictionary and a TJ array in the content; uncompressed xref stream+object stream; xref stream+object streams+Flate; Type0/ToUnicode; indirect /Length+indirect Resources; two revisions+depth-2 page tree; Flate+PNG predictor+xref stream; nested Form XObjects; embedded TrueType program), DOCX, ODT, XLSX, PPTX, EPUB2, EPUB3, HTML (0.6-7 KB each). " +
 		"Fault catalogue, applied at EVERY site (no sampling): (1) truncation at every byte offset of the file and at every token boundary of every ZIP member / decoded PDF stream (container rebuilt consistently); (2) every maximal digit run -> 0, -1, 2147483648, 9223372036854775807, every binary ZIP header field -> 0, all-ones, high-bit, max-positive; " +
@@ -26,6 +27,8 @@ func ruleText(thorough bool) string {
 		"every PDF-only method is also called on every non-PDF base (unfaulted, empty, cut in half). distinct = distinct descriptors (base, part, fault class, site, replacement, entry); non-trivial = at least one fault applied. " +
 		"Oracle: the call returns a value or an error; violation = Go panic (signature panic@first tabula frame), blown step/depth/allocation budget (steps@outermost function on the stack with a hot loop, depth@most frequent function on the stack, alloc@make site), worker death, 300 s backstop."
 }
+
+func isNum(e edit) bool { return strings.HasPrefix(e.class, "num") }
 
 func hexv(c byte) string { return fmt.Sprintf("%02X", c) }
 
@@ -43,7 +46,13 @@ func (r *runner) timeUp(what string) bool {
 // pairs runs compatible pairs of structural edits. cross=false: all pairs within the same group
 // (PDF object / xref section / ZIP record / XML tag) - the set the quick tier completes; cross=true
 // (thorough, second phase): every remaining pair of the layer until the time budget is used up.
-func (r *runner) pairs(bi *baseInfo, S []edit, cross bool) {
+func (r *runner) pairs(bi *baseInfo, all []edit, cross bool) {
+	var S []edit // doubles combine the classes 2-6; the nesting amplifier stays a single fault
+	for _, ed := range all {
+		if ed.class != "nest" {
+			S = append(S, ed)
+		}
+	}
 	key := func(ed edit) string { return bi.parts[ed.part].name + "|" + ed.group }
 	if !cross {
 		byGroup := map[string][]int{}
@@ -61,6 +70,14 @@ func (r *runner) pairs(bi *baseInfo, S []edit, cross bool) {
 				for b := a + 1; b < len(idx); b++ {
 					x, y := S[idx[a]], S[idx[b]]
 					if !compatible(x, y) {
+						continue
+					}
+					// quick, XML/HTML tags: two numeric attributes of one element, or a number and a
+					// delimiter; delimiter+delimiter in one tag only breaks the tag again (thorough)
+					if !r.e.Thorough() && bi.b.kind != "pdf" && bi.parts[x.part].kind != "raw" && !isNum(x) && !isNum(y) {
+						continue
+					}
+					if !r.e.Thorough() && bi.b.kind == "html" && !isNum(x) && !isNum(y) {
 						continue
 					}
 					eds := []edit{x, y}
@@ -87,6 +104,23 @@ func (r *runner) pairs(bi *baseInfo, S []edit, cross bool) {
 	}
 }
 
+// byteLevel: do the byte-level classes (every-offset truncation, byte substitution) run on this base?
+// Never on the field-inventory bases; in the quick tier also not on ODT, PPTX and EPUB2, whose
+// containers and XML syntax layer (archive/zip, encoding/xml, x/net/html) are the same code that the
+// DOCX, XLSX, EPUB3 and HTML bases already put under every byte fault. Thorough runs them all.
+func (r *runner) byteLevel(bi *baseInfo) bool {
+	if bi.b.rich {
+		return false
+	}
+	if !r.e.Thorough() {
+		switch bi.b.name {
+		case "odt", "pptx", "epub2":
+			return false
+		}
+	}
+	return true
+}
+
 func (r *runner) singles(bi *baseInfo, eds []edit, level string) {
 	if r.phase != 1 {
 		return
@@ -98,7 +132,7 @@ func (r *runner) singles(bi *baseInfo, eds []edit, level string) {
 }
 
 func (r *runner) subs(bi *baseInfo, pi int, text []byte, groupOf func(int) string) {
-	if r.phase != 1 {
+	if r.phase != 1 || !r.byteLevel(bi) {
 		return
 	}
 	for off, c := range text {
@@ -121,7 +155,7 @@ func (r *runner) truncs(bi *baseInfo, pi int, text []byte, full map[int]bool, ev
 		class := "truncb"
 		if full[off] {
 			level, class = "full", "trunc"
-		} else if !everyByte {
+		} else if !everyByte || !r.byteLevel(bi) {
 			continue
 		}
 		one := []edit{{part: pi, s: off, e: len(text), class: class, group: groupOf(off)}}
@@ -191,11 +225,20 @@ func (r *runner) enumPDF(bi *baseInfo, phase int) {
 	data := b.data
 	spans := bi.spans
 	skip := func(off int) bool { return inBinary(spans, off) }
+	// same-group doubles: faults of one object / xref section; inside the data of a textual
+	// stream (content stream, CMap) the group is the line, i.e. one operator with its operands
 	groupOf := func(off int) string {
 		if off >= len(data) {
 			off = len(data) - 1
 		}
-		return spanOf(spans, off).group
+		sp := spanOf(spans, off)
+		if sp.dkind == "text" && off >= sp.ds && off < sp.de {
+			return sp.group + ":L" + strconv.Itoa(bytes.Count(data[sp.ds:off], []byte("\n")))
+		}
+		if sp.kind == "section" && bytes.HasPrefix(data[sp.s:], []byte("xref")) { // xref table: one entry / the trailer line
+			return sp.group + ":L" + strconv.Itoa(bytes.Count(data[sp.s:off], []byte("\n")))
+		}
+		return sp.group
 	}
 	nobj := b.built.Size - 1
 	var S []edit
@@ -215,6 +258,7 @@ func (r *runner) enumPDF(bi *baseInfo, phase int) {
 
 	// (2)(3)(5) on the raw bytes
 	S = append(S, structuralEdits(0, data, true, nobj, skip, groupOf, nil)...)
+	S = append(S, nestEdits(0, data, true, skip, groupOf)...)
 
 	// (3) offsets: startxref, /Prev, xref entries -> every section / object offset
 	var targets []int
@@ -274,9 +318,18 @@ func (r *runner) enumPDF(bi *baseInfo, phase int) {
 	for pi := 1; pi < len(bi.parts); pi++ {
 		p := bi.parts[pi]
 		g := func(int) string { return p.name }
+		if p.kind == "data" {
+			g = func(off int) string {
+				if off > len(p.text) {
+					off = len(p.text)
+				}
+				return p.name + ":L" + strconv.Itoa(bytes.Count(p.text[:off], []byte("\n")))
+			}
+		}
 		switch p.kind {
 		case "body":
 			T = append(T, structuralEdits(pi, p.text, true, nobj, nil, g, nil)...)
+			T = append(T, nestEdits(pi, p.text, true, nil, g)...)
 			if !p.xs {
 				T = append(T, edit{part: pi, op: "drop", class: "drop", group: p.name})
 				T = append(T, edit{part: pi, op: "dup", class: "dup", group: p.name})
@@ -284,6 +337,7 @@ func (r *runner) enumPDF(bi *baseInfo, phase int) {
 		case "data":
 			if isTextual(p.text) {
 				T = append(T, structuralEdits(pi, p.text, true, 0, nil, g, nil)...)
+				T = append(T, nestEdits(pi, p.text, true, nil, g)...)
 			} else if p.xs {
 				T = append(T, streamEdits(pi, 0, len(p.text), p.text, p.name)...)
 			}
@@ -388,6 +442,9 @@ func (r *runner) enumZip(bi *baseInfo, phase int) {
 		switch p.kind {
 		case "member":
 			T = append(T, structuralEdits(pi, p.text, false, 0, nil, xmlGroup(p.text), nil)...)
+			if strings.HasSuffix(p.name, ".xhtml") || strings.HasSuffix(p.name, ".html") {
+				T = append(T, nestEdits(pi, p.text, false, nil, xmlGroup(p.text))...)
+			}
 			T = append(T, edit{part: pi, op: "drop", class: "drop", group: p.name})
 			T = append(T, edit{part: pi, op: "dup", class: "dup", group: p.name})
 		case "cdata":
@@ -424,6 +481,7 @@ func (r *runner) enumHTML(bi *baseInfo, phase int) {
 	}
 	r.truncs(bi, 0, data, tb, true, g)
 	S := structuralEdits(0, data, false, 0, nil, g, nil)
+	S = append(S, nestEdits(0, data, false, nil, g)...)
 	r.singles(bi, S, "full")
 	if phase == 1 {
 		r.sites["raw"] += len(S)
